@@ -116,6 +116,17 @@ theorem check_sim {F₁ F₂ σ₁ σ₂ τ : Type} (R : σ₁ → σ₂ → Pro
         · exact afterLoad_sim R keep _ l1 l2 hst _ _ (hinit f1 g1 true h1)
       · exact afterLoad_sim R keep _ l1 l2 hst _ _ (hinit f0 g0 false h0)
 
+/-- two loaders that succeed at once, with files whose `ctx` are related -/
+theorem check_sim_ok {F₁ F₂ σ₁ σ₂ τ : Type} (R : σ₁ → σ₂ → Prop) (keep : τ → Bool) (statOk : Bool) (ext : Ext)
+    (f1 : F₁) (f2 : F₂) (init1 : F₁ → Bool → σ₁) (init2 : F₂ → Bool → σ₂)
+    (l1 : List (Stage σ₁ τ)) (l2 : List (Stage σ₂ τ))
+    (hinit : ∀ broken, R (init1 f1 broken) (init2 f2 broken)) (hst : RespectsAll R keep l1 l2) :
+    (check statOk ext (fun _ => .ok f1) init1 l1).lines.filter (keepLine keep)
+      = (check statOk ext (fun _ => .ok f2) init2 l2).lines.filter (keepLine keep) ∧
+    (check statOk ext (fun _ => .ok f1) init1 l1).uncaught = (check statOk ext (fun _ => .ok f2) init2 l2).uncaught :=
+  check_sim R (fun f g => f = f1 ∧ g = f2) keep statOk ext _ _ init1 init2 l1 l2
+    (fun _ => ⟨rfl, rfl⟩) (fun f g broken h => by rw [h.1, h.2]; exact hinit broken) hst
+
 /-- special case: the two loaders return the very same results (same file model), same `init`, same stages -/
 theorem check_congr_load {F σ τ : Type} (statOk : Bool) (ext : Ext) (load1 load2 : Bool → Except LoadErr F)
     (init : F → Bool → σ) (stages : List (Stage σ τ)) (h : ∀ retry, load1 retry = load2 retry) :
